@@ -183,7 +183,7 @@ respect to the convention above, and keeps `L`, `R` rotated left by one bit duri
 bits of every E-block are adjacent.  These definitions say what each table entry *should* be. -/
 
 /-- rotate a 32-bit word left by one. -/
-def rotl1 (w : Nat) : Nat := (w * 2 + w / 2147483648) % 4294967296
+def rotl1 (w : Nat) : Nat := (w <<< 1) % 4294967296 ||| w >>> 31
 
 /-- what `SPtrans[b][x]` has to be: `x` holds the six input bits of `S_{b+1}` least significant first; the 4-bit
 S-box output goes to bits 4b+1 … 4b+4, through P, into libdes bit order, rotated left by one. -/
